@@ -17,6 +17,10 @@ CHECKS = {
    text="Part 1: seeded groups of 2..16 goroutines load inputs of ten families (version:, extends, include, env/label files, secrets, overrides, interpolation, profiles, build/deploy) concurrently from a barrier in a -race build under four GOMAXPROCS settings and scheduler storms; oracles are the Go race detector (reports read from its log, de-duplicated by compose-go frame pair) and equality of every concurrent result with the same load done alone. Part 2: WithServicesTransform / WithImagesResolved on 0..6 services with every callback parked on the schedule controller: all release orders (complete up to 5 services quick, 6 thorough) x injected failures, judged by a trace monitor (exactly once, results are the per-service results, first error in release order, no return with callbacks running, no deadlock). Held on the executions observed.",
    note="The race detector only judges interleavings that occurred; each concurrent load gets its own Environment map. Quiescence for the fan-out controller is decided from goroutine wait states.",
    technique="runtime monitoring: Go race detector over concurrent-load workloads + result-equivalence oracle + controlled fan-out trace monitor", design="4/C19"),
+ "C14": dict(category="exploration",
+   text="Reflection-filled projects (333 of 335 struct fields of the model types non-zero; the two unexported flags are exercised through WithSecretContent) and loaded projects go through seeded sequences of 1..4 derivations (all public With* operations, ForEachService with a mutating callback, both marshalling modes). After every step three monitors run: receiver deep-equal to the harness's own pre-call snapshot; every field the operation does not concern deep-equal between receiver and result; an address scan proving that no map, slice backing array or pointee is reachable from both the result and the receiver (or any earlier project of the sequence), followed by overwriting everything reachable from the result and re-comparing the receiver. Thorough tier runs under the race detector. Held on the sequences observed.",
+   note="Snapshots use the harness's own deep copy. Extension payload values may be shared (the statement excepts them); zero-size allocations are ignored by the address scan.",
+   technique="runtime monitoring: invariant monitors (snapshot equality, pointer-identity scan, mutation probe) over reflection-generated projects and operation sequences", design="4/C14"),
 }
 PLANNED = {}
 
